@@ -17,7 +17,7 @@ RULE = ('2-CA space enumerated over the grid {NAME order} x {AAC on/off each} x 
         'was contested; distinct = the case descriptor')
 ASSUMPTIONS = ['addresses are chosen so that every possible loss leaves room below 247 (as the property states)',
                'zero latency = the reply is handled re-entrantly inside the sender\'s send call']
-MIN_OBS = {'contested_addresses': {'quick': 900, 'thorough': 15000}, 'cannot_claim_checked': {'quick': 150, 'thorough': 3000},
+MIN_OBS = {'contested_addresses': {'quick': 600, 'thorough': 10000}, 'cannot_claim_checked': {'quick': 150, 'thorough': 3000},
            'reclaims_checked': {'quick': 150, 'thorough': 3000}, 'zero_latency_cases': {'quick': 300, 'thorough': 5000}}
 
 NAMES = [
